@@ -414,11 +414,19 @@ def extract_multi(b: Built, roots, allow_fb=False):
         if e.debug or e.failAction:
             raise Unsupported("debug/failAction")
         acts = []
+        # results-name binding of _parseNoCache (core.py:861-863), and again after each token-replacing action
+        # (core.py:896-904): pseudo-action `name` of the model
+        name_act = ([Sym("name"), str(e.resultsName), bool(e.modalResults), bool(e.saveAsList)]
+                    if e.resultsName else None)
+        if name_act:
+            acts.append(name_act)
         for w in e.parseAction:
             tag = b.act_tags.get(id(w))
             if tag is None:
                 raise Unsupported("foreign parse action")
             acts.append([Sym(tag[0])] + list(tag[1:]))
+            if name_act and tag[0] in ("const", "drop", "rev", "dup"):
+                acts.append(name_act)
         nodes.append([kind, bool(e.skipWhitespace), _chars(e.whiteChars), bool(e.callPreparse), bool(e.mayIndexError),
                       [visit(x) for x in e.ignoreExprs], acts, bool(e.callDuringTry), len(str(e)),
                       bool(e.resultsName)])
